@@ -314,7 +314,10 @@ CutClauses(s, o, e) ==
   { Cl("Undisturbed.root", e.rootOk /\ e.post.rootObj = s.rootObj) } \cup
   (IF e.outcome = "ok" /\ e.delOutcome = "ok"
    THEN { Cl("Cut.pieceIsCopy", e.res.text = e.copy.text /\ e.res.liveP = e.copy.liveP /\ e.res.kind = e.copy.kind),
-          Cl("Cut.remainderIsDelete", e.post.text = e.delPost.text /\ e.post.liveP = e.delPost.liveP) }
+          (* same text and same structure; same positions wherever the remainder is valid Python (an emptied   *)
+          (* field left invalid by design has no positions a re-parse could confirm)                           *)
+          Cl("Cut.remainderIsDelete", /\ e.post.text = e.delPost.text /\ e.post.liveS = e.delPost.liveS
+                                      /\ (e.post.srcOk => e.post.liveP = e.delPost.liveP)) }
         \cup (IF AlignedOk(o, e) /\ ~DependentCut(ParKind(s, e), CutField(e))
               THEN { Cl("Conserve.tokens", ConserveSig(o, e, ParKind(s, e), CutField(e))),
                      Cl("Conserve.comment", ConserveComment(o, e)) }
